@@ -65,6 +65,9 @@ PROFILES = {
     "plain": (1, 0, 0, 0, 0, 0, 0),
     "mixed": (12, 2, 2, 2, 2, 1, 0),
     "adversarial": (6, 4, 4, 4, 4, 3, 1),
+    # adversarial without the stdlib-macro class (C06 runs that class as a separate, exhaustive sub-campaign so that it
+    # cannot mask keyword / reserved-pattern findings)
+    "adversarial_nomacro": (6, 4, 4, 4, 4, 3, 0),
 }
 
 
@@ -205,6 +208,27 @@ def field_type(draw, refs: typing.List[dict], known, budget_bits: int, allow_arr
     return {"t": "varr", "elem": rt, "cap": draw(st.sampled_from(caps)), "incl": True}
 
 
+def _p(t, bits=None, cast="saturated"):
+    return {"t": t} if bits is None else {"t": t, "bits": bits, "cast": cast}
+
+
+# maximally wide field types (used only with the additive `wide_pct` option): 64-bit primitives, capacities at and beyond the
+# 8/16/32-bit length-prefix boundaries, large fixed arrays
+WIDE_TYPES = [
+    _p("uint", 64), _p("uint", 64, "truncated"), _p("int", 64), _p("float", 64), _p("float", 64, "truncated"), _p("uint", 63), _p("int", 63),
+    {"t": "varr", "elem": {"t": "byte"}, "cap": 65535, "incl": True},
+    {"t": "varr", "elem": {"t": "byte"}, "cap": 65536, "incl": True},
+    {"t": "varr", "elem": {"t": "utf8"}, "cap": 65536, "incl": False},
+    {"t": "varr", "elem": _p("bool"), "cap": 65536, "incl": True},
+    {"t": "varr", "elem": _p("uint", 64), "cap": 256, "incl": True},
+    {"t": "varr", "elem": _p("int", 64), "cap": 70000, "incl": True},
+    {"t": "varr", "elem": _p("float", 64), "cap": 255, "incl": True},
+    {"t": "farr", "elem": _p("uint", 64), "n": 1000},
+    {"t": "farr", "elem": _p("bool"), "n": 4099},
+    {"t": "farr", "elem": _p("float", 16), "n": 257},
+    {"t": "farr", "elem": _p("uint", 1), "n": 65537},
+]
+
 FLOAT_CONSTS = {
     16: ["0.0", "1.0", "-1.5", "65504.0", "-65504.0", "1/3", "6.0e-8", "0.1", "1e-3", "3/2"],
     32: ["0.0", "1.0", "-1.5", "340282346638528859811704183484516925440.0", "-340282346638528859811704183484516925440.0", "1/3", "1e-45", "0.1", "16777217.0", "1e-30", "123456.789"],
@@ -255,11 +279,18 @@ def body(draw, refs, known, profile: str, opts: dict, union: typing.Optional[boo
     n_fields = draw(st.integers(2, 6)) if is_union else draw(st.integers(0, opts.get("max_fields", 7)))
     if not is_union and n_fields == 0 and draw(st.integers(0, 2)) > 0:
         n_fields = 1
+    # additive options (absent -> no extra draws, behaviour unchanged): empty_pct / wide_pct = percentage of bodies that are
+    # forced empty (structures only) / built from maximally wide field types
+    if not is_union and opts.get("empty_pct") and draw(st.integers(0, 99)) < opts["empty_pct"]:
+        n_fields = 0
+    wide = bool(opts.get("wide_pct")) and draw(st.integers(0, 99)) < opts["wide_pct"]
+    if wide:
+        budget = opts.get("wide_max_type_bits", 40_000_000)
     spent = 0
     for _ in range(n_fields):
         if not is_union and opts.get("voids", True) and draw(st.integers(0, 4)) == 0:
             attrs.append({"k": "void", "bits": draw(st.sampled_from([1, 2, 3, 5, 7, 8, 9, 13, 16, 31, 32, 33, 63, 64]))})
-        t = draw(field_type(refs, known, max(64, (budget - spent) // 2)))
+        t = draw(st.sampled_from(WIDE_TYPES)) if wide else draw(field_type(refs, known, max(64, (budget - spent) // 2)))
         spent += max_bits(t, known)
         d = draw(doc_lines(opts.get("attr_docs", "none")))
         attrs.append({"k": "field", "type": t, "name": draw(draw_name(used, PLAIN_FIELDS, profile)), "doc": d[0] if d else None})
@@ -410,9 +441,10 @@ def body_text(b: dict, deprecated: bool, doc: typing.List[str]) -> str:
         lines.append("@union")
     for a in b["attrs"]:
         if a["k"] == "void":
-            lines.append(f"void{a['bits']}")
+            # (additive, C20) void and constant attributes may carry an optional "doc" line like fields do
+            lines.append(f"void{a['bits']}" + (f"  # {a['doc']}" if a.get("doc") else ""))
         elif a["k"] == "const":
-            lines.append(f"{type_text(a['type'])} {a['name']} = {a['value']}")
+            lines.append(f"{type_text(a['type'])} {a['name']} = {a['value']}" + (f"  # {a['doc']}" if a.get("doc") else ""))
         else:
             lines.append(f"{type_text(a['type'])} {a['name']}" + (f"  # {a['doc']}" if a.get("doc") else ""))
     if b["sealed"]:
@@ -424,7 +456,7 @@ def body_text(b: dict, deprecated: bool, doc: typing.List[str]) -> str:
 
 def typedef_text(td: dict) -> str:
     if td["kind"] == "service":
-        return body_text(td["body"]["request"], td["deprecated"], td["doc"]) + "---\n" + body_text(td["body"]["response"], False, [])
+        return body_text(td["body"]["request"], td["deprecated"], td["doc"]) + "---\n" + body_text(td["body"]["response"], False, td.get("response_doc") or [])
     return body_text(td["body"], td["deprecated"], td["doc"])
 
 
